@@ -14,58 +14,115 @@ LEVEL = "proof"
 RULE = ("cohorts of 1..8 coverage-file pairs written to a temp dir (sex mix, per-sample depth scale, noise or none, chr / "
         "plain naming, with / without antitarget files incl. empty ones, male / female reference, sexes given or "
         "inferred by the real guess_xx) through do_reference with the bias corrections off (exact oracle = the Lean "
-        "model incl. Tukey's biweight location / midvariance); malformed cohorts (a file whose bins differ); "
-        "do_reference_flat; calculate_gc_lo on random sequences; same-sex cohorts of 3..6 normals differing only in depth "
-        "through do_reference with the corrections ON (tiled or irregular designs, non-flat profile, <= 10% X bins; "
-        "semantic clauses only: spread ~ 0 and the same profile as at equal depth). about 15% of the cases (every 5th "
-        "cohort, every other malformed cohort, every 3rd corrections-on cohort, every other flat reference; tag cli-*) "
+        "model incl. Tukey's biweight location / midvariance).  Configuration cells drawn per cohort: sex chromosomes "
+        "among targets and antitargets / only among the antitargets (the sexes can then only come from the antitarget "
+        "files) / nowhere; one sample whose antitargets look like the other sex than its targets (70% of the eligible "
+        "inferred-sex cohorts: the antitargets decide); diploid_parx_genome grch37 / grch38 / GRCh38 with half the X and "
+        "Y bins inside PAR1 (30% of the non-ideal cohorts); files without a depth column (8%, integer log2 so that "
+        "depth = 2^log2 is exact); files carrying a gc column (12%); do_cluster / -c with min_cluster_size 1 / 2 / 4 "
+        "(25% of the cohorts of >= 3 samples: pooled columns against the model as always, cluster columns present and "
+        "paired, and for depth-only cohorts equal to the pooled profile with spread 0); the antitarget list in an order "
+        "of its own; file lists as tuples (30%); no antitargets as [] or None; arguments at their defaults left out "
+        "or passed positionally; rows of each file shuffled (15%; the reader sorts).  every 8th cohort is malformed, "
+        "in turn: a target coordinate differs / only a gene name differs / a row is missing / an antitarget "
+        "coordinate differs / one antitarget file is missing (unequal counts).  do_reference_flat (targets +- "
+        "antitargets); calculate_gc_lo on random sequences; flat references over a generated genome (op flat_fasta: "
+        "FASTA lines of 50 / 60 / 100 bases, regions of differing G+C / lowercase / N content; the gc and rmask "
+        "COLUMNS of every bin against the bin's own sequence, one bin -- the first that looks wrong -- through the "
+        "Lean gcRmask model; log2 rows unchanged by the genome; API or `reference -t -a -f`).  corrections ON (op "
+        "reference_on, semantic clauses only: exact bins, spread ~ 0, same profile as at equal depth): cohorts of 3..6 "
+        "normals differing only in depth (tiled or irregular designs, non-flat profile, <= 10% X bins), the cells in "
+        "turn: with antitarget files / with a genome FASTA (GC and RepeatMasker corrections really on; gc of every bin "
+        "and rmask of the antitarget bins against the sequences) / with a gc column in the files / every third cohort "
+        "mixed-sex with every other sample of the other sex and the sexes inferred (>= 45 X bins among >= 570).  "
+        "about 15% of the cases (every 5th cohort, every other malformed cohort, every 3rd corrections-on cohort, "
+        "every other flat reference, every 3rd flat_fasta; tag cli-*) "
         "go through the command line instead, `cnvkit.py reference` run in-process (parse_args + _cmd_reference + the "
         "writer): target and antitarget .cnn files in one list (targets first / antitargets first / interleaved) or "
         "as their directory, -o, -y / --male-reference / --haploid-x-reference or absent, -x / -g / --sample-sex / "
-        "--gender with every spelling of male / female or absent (sexes inferred), --no-edge always and --no-gc "
-        "--no-rmask given or (without a genome, where they cannot matter) left to the parser's defaults, half of "
+        "--gender with every spelling of male / female or absent (sexes inferred), --diploid-parx-genome, -c / "
+        "--cluster --min-cluster-size, --no-edge always and --no-gc "
+        "--no-rmask given or (without a genome and without a gc column, where they cannot matter) left to the "
+        "parser's defaults, half of "
         "them with -f <generated FASTA with varied G+C / lowercase content> so that --no-gc / --no-rmask are what "
         "keeps the corrections off; the corrections-on cohorts with no --no-* flag; the flat reference as "
-        "`reference -t targets.bed [-a antitargets.bed] [-y] -o out`; the table handed to the writer is judged "
+        "`reference -t targets.bed [-a antitargets.bed] [-y] [-f fa] -o out`; the table handed to the writer is judged "
         "and the written file must read back equal to it within 1e-5 relative. non-trivial = >= 2 samples or a "
         "sex chromosome present; distinct by hash")
 EXHAUSTIVE = {"quick": False, "thorough": False}
 ASSUMPTIONS = ["corrections off for the exact tie (with corrections on the rolling-median steps are C04's subject)",
                "sample sexes are a parameter of the model: given, or inferred by the real guess_xx (C15)",
-               "values are taken as re-read from the written .cnn files (%.6g), so file I/O rounding is outside"]
+               "values are taken as re-read from the written .cnn files (%.6g), so file I/O rounding is outside",
+               "do_cluster: the per-cluster columns log2_i / spread_i are not modelled (k-means membership); checked are "
+               "the pooled columns (unchanged, exact oracle), presence / pairing of the cluster columns and, for cohorts "
+               "differing only in depth and sex, that every cluster reproduces the pooled profile with spread 0"]
 TRUSTED_EXTRA = ["tabio read/write of .cnn files (C08)", "numpy apply_along_axis / vstack / hstack plumbing"]
 
 
-def _bins(rng, style, anti, nx=45):
+def _bins(rng, style, anti, nx=45, sexchr=True, par=False):
+    """bins of 1..3 autosomes, X (nx bins) and (70%) Y; `sexchr=False`: a panel without sex chromosomes;
+    `par`: the first half of the X / Y bins lies in PAR1 of both supported builds (from 100 kb), the rest beyond
+    both PAR1 ends (from 3 Mb)"""
     out = []
     chroms = [style + c for c in ["1", "2", "3"][: rng.randint(1, 3)]] + [style + "X"] + ([style + "Y"] if rng.random() < .7 else [])
     for c in chroms:
         pos = 0
-        n = rng.randint(4, 9) if c[-1] not in "XY" else (nx if c[-1] == "X" else rng.randint(3, 6))
+        sex = c[-1] in "XY"
+        n = rng.randint(4, 9) if not sex else (nx if c[-1] == "X" else rng.randint(3, 6))
+        if sex and par:
+            pos = 100000
         for i in range(n):
+            if sex and par and i == (n + 1) // 2:
+                pos = 3000000
             sz = rng.randint(100, 300) if not anti else rng.randint(5000, 9000)
             pos += rng.randint(0, 500)
-            out.append([c, pos, pos + sz, "Antitarget" if anti else "G%d" % (i // 3)])
+            if not sex or sexchr:
+                out.append([c, pos, pos + sz, "Antitarget" if anti else "G%d" % (i // 3)])
             pos += sz
     return out
 
 
-def _cohort(rng, ideal=False):
+MALFORMED = ("bins_differ", "gene_differs", "fewer_rows", "anti_bins_differ", "unequal_counts")
+
+
+def _cohort(rng, ideal=False, want=None):
+    """`want`: the way in which one file's bins differ (a malformed cohort), or None"""
     style = rng.choice(["chr", ""])
-    k = rng.randint(3, 6) if ideal else rng.randint(1, 8)
+    k = rng.randint(3, 6) if ideal else rng.randint(2 if want else 1, 8)
     hapx = rng.random() < .5
-    with_anti = rng.random() < .6
+    with_anti = rng.random() < .6 or want in MALFORMED[3:]
     given = rng.choice([None, "true", "false"])
     if ideal and rng.random() < 0.6:
         given = None  # mixed-sex cohort with inferred sexes: the case where the sex shift of one sample could leak into another
     one_sex = rng.random() < .5
+    # the remaining configuration cells come from a private stream (drawn up front, so that the cohorts themselves
+    # stay the ones generated before these cells existed)
+    r3 = random.Random(rng.getrandbits(32))
+    empty_anti = with_anti and rng.random() < 0.15 and want not in MALFORMED[3:]
+    # where the sex chromosomes are: in both bin sets / only among the antitargets (a gene panel without X / Y
+    # targets: the sexes can only come from the antitarget files) / nowhere
+    x_layout = "both"
+    u = r3.random()
+    if u < .12 and with_anti and not empty_anti:
+        x_layout = "anti_only"
+    elif .12 <= u < .2:
+        x_layout = "none"
+    # diploid_parx_genome: exact oracle only (the ideal clause has no notion of a PAR profile)
+    par = r3.choice(["grch38", "grch37", "GRCh38"]) if (not ideal and r3.random() < .3) else None
+    # coverage files without a depth column (depth = 2^log2 then): integer log2 values keep 2^log2 exact
+    nodepth = not ideal and r3.random() < .08
+    # coverage files carrying a gc column (import-picard); with the GC correction off it must not matter
+    gc_col = r3.random() < .12
+    # one sample whose antitargets look like the other sex than its targets: the antitargets decide
+    conflict = (not ideal and given is None and with_anti and not empty_anti and x_layout == "both" and k >= 2
+                and r3.random() < .7)
     # sex inference needs >= 40 X bins (C15); with given sexes small tables do
     nx = rng.randint(45, 50) if given is None else rng.randint(3, 8)
-    tb = _bins(rng, style, False, nx)
-    ab = [[c, s + 100000, e + 100000, g] for c, s, e, g in _bins(rng, style, True, nx)] if with_anti else []
+    tb = _bins(rng, style, False, nx, sexchr=(x_layout == "both"), par=bool(par))
+    ab = [[c, s + 100000, e + 100000, g] for c, s, e, g in _bins(rng, style, True, nx, sexchr=(x_layout != "none"), par=bool(par))] if with_anti else []
     # values on a 1/8 grid: exactly representable, printed exactly by %.6g, and small as rationals
     # (the exact biweight iterations square denominators; full 53-bit inputs make the model very slow)
-    g8 = lambda x: round(x * 8) / 8
+    g8 = (lambda x: float(round(x))) if nodepth else (lambda x: round(x * 8) / 8)
     # ideal cohorts: a flat common profile, so that the expected levels are exactly 0 / -1 (a male sample's Y
     # follows the profile while a female sample's Y is set to -1: only a flat profile makes them agree)
     prof_t = [0.0 if ideal else g8(rng.gauss(0, .4)) for _ in tb]
@@ -79,8 +136,10 @@ def _cohort(rng, ideal=False):
             fem = (given == "true")   # do_reference takes ONE sex for all samples when it is given
         scale = g8(rng.gauss(0, 1))
         sd = 0.0 if ideal else rng.choice([0.0, 0.125, 0.25])
+        if nodepth:
+            sd *= 4
 
-        def mk(bins, prof):
+        def mk(bins, prof, fem):
             rows = []
             for (c, a, b, g), p in zip(bins, prof):
                 lg = 6 + scale + p + (g8(rng.gauss(0, sd)) if sd else 0.0)
@@ -95,55 +154,105 @@ def _cohort(rng, ideal=False):
                     rows.append([c, a, b, g, lg, float(rng.randint(2, 400)) / 2])
             return rows
         samples.append({"name": "smp%02d_%d" % (rng.randint(0, 99), s), "female": fem,
-                        "t": mk(tb, prof_t), "a": mk(ab, prof_a)})
+                        "t": mk(tb, prof_t, fem), "a": mk(ab, prof_a, fem != (conflict and s == k - 1))})
     order = list(range(k))
     rng.shuffle(order)
-    empty_anti = with_anti and rng.random() < 0.15
     malformed = None
-    if not ideal and k >= 2 and rng.random() < 0.08:
-        malformed = "bins_differ"
-        r = samples[-1]["t"][0]
-        samples[-1]["t"][0] = [r[0], r[1] + 1] + r[2:]
+    drop_anti = None
+    if want:
+        # the ways in which a file's bins differ: a coordinate; only a gene name; a missing row; the same in an
+        # antitarget file; and a cohort with fewer antitarget than target files
+        malformed = want
+        bad = samples[r3.randrange(k)]
+        if malformed == "bins_differ":
+            r = r3.choice(bad["t"])
+            r[1 + r3.randrange(2)] += 1
+        elif malformed == "gene_differs":
+            r = r3.choice(bad["t"])
+            r[3] = r[3] + "b"
+        elif malformed == "fewer_rows":
+            del bad["t"][r3.randrange(len(bad["t"]))]
+        elif malformed == "anti_bins_differ":
+            r = r3.choice(bad["a"])
+            r[r3.choice([1, 2])] += 1
+        else:
+            drop_anti = bad["name"]
+    # do_cluster (reference -c): the pooled columns must not change; >= 3 samples (the PCA wants 3 components)
+    cluster = None
+    if k >= 3 and not malformed and r3.random() < .25:
+        cluster = r3.choice([1, 2, 4])
+    # how the API is called: antitarget files in an order of their own; tuples; no antitargets as [] instead of None;
+    # arguments at their defaults left out
+    order_a = list(range(k))
+    r3.shuffle(order_a)
+    api = {"tuple": r3.random() < .3, "empty_list": r3.random() < .5, "implicit": r3.random() < .5,
+           "shuffle_rows": r3.getrandbits(30) if (not malformed and r3.random() < .15) else None}
     return {"op": "reference", "tag": ("ideal" if ideal else "cohort") + ("-" + malformed if malformed else ""),
-            "in": {"samples": samples, "order": order, "hapX": hapx, "par": None, "with_anti": with_anti,
+            "in": {"samples": samples, "order": order, "hapX": hapx, "par": par, "with_anti": with_anti,
                    "empty_anti": empty_anti, "given": given, "ideal": ideal, "k": k,
-                   "profile_t": [frac(x) for x in prof_t], "profile_a": [frac(x) for x in prof_a]}}
+                   "profile_t": [frac(x) for x in prof_t], "profile_a": [frac(x) for x in prof_a],
+                   "x_layout": x_layout, "nodepth": nodepth, "gc_col": gc_col, "conflict": bool(conflict),
+                   "drop_anti": drop_anti, "cluster": cluster, "order_a": order_a, "api": api}}
 
 
-def _cohort_on(rng):
-    """same-sex normals that differ only in sequencing depth, bias corrections ON (semantic clauses only: the
-    rolling-median corrections are C04's subject).  Half the cohorts use a tiled design (equal bin sizes and gaps,
-    hence tied edge-bias keys); the common profile is not flat; sex chromosomes are at most 10% of the bins."""
+def _cohort_on(rng, nth=0):
+    """normals that differ only in sequencing depth (and, in every third cohort, in sex -- every other sample, left to be inferred),
+    bias corrections ON (semantic clauses only: the rolling-median corrections are C04's subject).  Half the cohorts
+    use a tiled design (equal bin sizes and gaps, hence tied edge-bias keys); the common profile is not flat; sex
+    chromosomes are at most 10% of the bins.  Half of them come with antitarget files, half with a genome FASTA
+    (without one only the edge correction has anything to work on), a few with a gc column in the files instead."""
     style = rng.choice(["chr", ""])
     k = rng.randint(3, 6)
     fem = rng.random() < .5
     hapx = rng.random() < .5
     tiled = rng.random() < .5
+    r3 = random.Random(rng.getrandbits(32))
+    mixed = nth % 3 == 2             # one sample of the other sex, sexes inferred: needs >= 45 X bins, hence >= 540 bins
     tb = []
-    for c in ["1", "2", "3"][: rng.randint(1, 3)]:
+    nchrom = rng.randint(1, 3)
+    for c in ["1", "2", "3"][: 3 if mixed else nchrom]:
         pos = rng.randint(0, 3000)
-        for j in range(rng.randint(25, 60)):
+        for j in range(rng.randint(25, 60) if not mixed else rng.randint(190, 220)):
             sz = 200 if tiled else rng.randint(100, 400)
             tb.append([style + c, pos, pos + sz, "G%d" % (j // 4)])
             pos += sz + (2000 if tiled else rng.choice([0, 50, 700, 3000]))
-    nx = max(1, len(tb) // 12)
+    nx = max(1, len(tb) // 12) if not mixed else max(45, len(tb) // 12)
     pos = 500
     for j in range(nx):
-        tb.append([style + "X", pos, pos + 200, "GX%d" % (j // 3)])
-        pos += 2200
+        # (irregular designs: the X bins' sizes and gaps vary like the autosomal ones, so that their edge-bias keys
+        # interleave with those of the autosomes)
+        sz = 200 if tiled else r3.randint(100, 400)
+        tb.append([style + "X", pos, pos + sz, "GX%d" % (j // 3)])
+        pos += sz + (2000 if tiled else r3.choice([0, 50, 700, 3000]))
     g8 = lambda x: round(x * 8) / 8
     prof = [g8(rng.gauss(0, .5)) for _ in tb]
     scales = [g8(rng.gauss(0, 1.2)) for _ in range(k)]
     names = ["smp%02d_%d" % (rng.randint(0, 99), s) for s in range(k)]
-    return {"op": "reference_on", "tag": "corrections-on-" + ("tiled" if tiled else "irregular"),
-            "in": {"bins": tb, "profile_f": prof, "scales_f": scales, "names": names, "female": fem, "hapX": hapx, "k": k}}
+    ab, prof_a = [], []
+    if nth % 2 == 0:
+        for c in sorted({r[0] for r in tb}, key=lambda c: (c[-1] == "X", c)):
+            if c[-1] == "X":
+                continue                   # (X stays <= 10% of the bins)
+            pos = 400000
+            for j in range(r3.randint(12, 25)):
+                sz = r3.randint(5000, 9000)
+                ab.append([c, pos, pos + sz, "Antitarget"])
+                pos += sz + r3.choice([0, 1000])
+        prof_a = [g8(r3.gauss(0, .3)) for _ in ab]
+    u = [.2, .2, .9, .55, .2, .9][nth % 6] if nth < 6 else r3.random()   # genome / gc column in the files / neither
+    return {"op": "reference_on", "tag": "corrections-on-" + ("tiled" if tiled else "irregular") + ("-mixed" if mixed else ""),
+            "in": {"bins": tb, "profile_f": prof, "scales_f": scales, "names": names, "female": fem, "hapX": hapx, "k": k,
+                   "mixed": mixed, "abins": ab, "profile_af": prof_a,
+                   "fasta_seed": r3.getrandbits(30) if u < .5 else None,
+                   "gc_col": .5 <= u < .65}}
 
 
 def gen_cases(rng, tier):
-    n = {"quick": 70, "thorough": 400, "search": 100}[tier]
-    cases = [_cohort(rng, ideal=(i % 4 == 0)) for i in range(n)]
-    cases += [_cohort_on(rng) for _ in range(max(6, n // 6))]
-    for _ in range(n // 2):
+    n = {"quick": 64, "thorough": 240, "search": 100}[tier]
+    # every 8th cohort is malformed, the five kinds in turn
+    cases = [_cohort(rng, ideal=(i % 4 == 0), want=MALFORMED[(i // 8) % 5] if i % 8 == 5 else None) for i in range(n)]
+    cases += [_cohort_on(rng, j) for j in range(max(6, n // 6))]
+    for _ in range(n // 3):
         seq = "".join(rng.choice("ACGTacgtNnRY") for _ in range(rng.randint(0, 60)))
         cases.append({"op": "gc_rmask", "tag": "gc", "in": {"seq": seq}})
     for _ in range(max(4, n // 10)):
@@ -151,6 +260,17 @@ def gen_cases(rng, tier):
         cases.append({"op": "flat_reference", "tag": "flat",
                       "in": {"tb": _bins(rng, style, False), "ab": _bins(rng, style, True) if rng.random() < .5 else [],
                              "hapX": rng.random() < .5, "par": None}})
+    # the gc / rmask COLUMNS: a flat reference (targets, +- antitargets) over a generated genome; every bin's values
+    # against the bin's own sequence (get_fasta_stats / fasta_extract_regions: slicing, row alignment)
+    for j in range(max(6, n // 8)):
+        style = rng.choice(["chr", ""])
+        tb = _bins(rng, style, False, rng.randint(3, 8))
+        ab = [[c, s + 20000, e + 20000, g] for c, s, e, g in _bins(rng, style, True, rng.randint(2, 4))] if rng.random() < .5 else []
+        cases.append({"op": "flat_fasta", "tag": "flat-fasta",
+                      "in": {"tb": tb, "ab": ab, "hapX": rng.random() < .5, "fasta_seed": rng.getrandbits(30),
+                             "width": rng.choice([50, 60, 100]), "pick": rng.random(), "cli": j % 3 == 1,
+                             "y": rng.choice(["-y", "--male-reference", "--haploid-x-reference"]),
+                             "f": rng.choice(["-f", "--fasta"])}})
     _mark_cli(cases, random.Random(rng.getrandbits(32)))
     return cases
 
@@ -162,7 +282,7 @@ def _mark_cli(cases, r2):
     seen = {}
     for c in cases:
         op = c["op"]
-        key = "malformed" if "bins_differ" in c["tag"] else op
+        key = "malformed" if any(m in c["tag"] for m in MALFORMED) else op
         n = seen[key] = seen.get(key, -1) + 1
         every, at = {"reference": (5, 2), "malformed": (2, 1), "reference_on": (3, 1), "flat_reference": (2, 1)}.get(key, (0, 0))
         if not every or n % every != at:
@@ -173,6 +293,8 @@ def _mark_cli(cases, r2):
         # to work on, so leaving --no-gc / --no-rmask out must not change the result: the parser's defaults
         # (do_gc = do_rmask = True) reach do_reference in those cases
         flags = ["--no-edge"] + [f for f in ("--no-gc", "--no-rmask") if fasta or r2.random() < .5]
+        if i.get("gc_col") and "--no-gc" not in flags:
+            flags.append("--no-gc")     # files with a gc column: the GC correction has something to work on
         r2.shuffle(flags)
         i["cli"] = True
         if op == "flat_reference":
@@ -190,7 +312,7 @@ def _mark_cli(cases, r2):
             "o": r2.choice(["-o", "--output"]),
             "long_flat": r2.random() < .5,
             "flags": flags if op == "reference" else [],   # corrections-on cohorts: no flag at all (defaults)
-            "fasta": fasta, "fasta_seed": r2.getrandbits(30)}
+            "fasta": fasta, "fasta_seed": r2.getrandbits(30), "c": r2.choice(["-c", "--cluster"])}
         c["tag"] = "cli-" + c["tag"]
 
 
@@ -212,17 +334,31 @@ def classify_single_sample(case, impl, resp):
     return case["in"].get("k") == 1
 
 
-def _write(rows, path):
+def _write(rows, path, nodepth=False, gc_col=False, shuffle=None):
+    """a coverage file: chromosome, start, end, gene, log2, depth -- optionally without the depth column, with a gc
+    column, its rows in a shuffled order (the reader sorts)"""
     from skgenome import tabio
     from cnvlib.cnary import CopyNumArray as CNA
-    arr = CNA.from_rows([tuple(r) for r in rows], columns=["chromosome", "start", "end", "gene", "log2", "depth"])
+    cols = ["chromosome", "start", "end", "gene", "log2", "depth"]
+    rows = [tuple(r) for r in rows]
+    if gc_col:
+        cols = cols + ["gc"]
+        rows = [r + (((r[1] * 7 + r[2] * 3) % 41 + 20) / 80,) for r in rows]
+    if nodepth:
+        cols = cols[:5] + cols[6:]
+        rows = [r[:5] + r[6:] for r in rows]
+    if shuffle is not None:
+        random.Random(shuffle).shuffle(rows)
+    arr = CNA.from_rows(rows, columns=cols)
     tabio.write(arr, path)
 
 
 def _reread(path):
     from cnvlib.cmdutil import read_cna
     d = read_cna(path).data
-    return [[str(r.chromosome), int(r.start), int(r.end), str(r.gene), frac(float(r.log2)), frac(float(r.depth))]
+    # without a depth column the depth is 2^log2 of the file's log2 (generated as integers then: exact)
+    return [[str(r.chromosome), int(r.start), int(r.end), str(r.gene), frac(float(r.log2)),
+             frac(float(r.depth) if "depth" in d.columns else 2.0 ** float(r.log2))]
             for r in d.itertuples()]
 
 
@@ -269,10 +405,11 @@ def _cli_run(argv, out):
     return ref
 
 
-def _write_fasta(path, need, seed):
-    """a genome covering `need` = {chromosome: length}: 100-base lines drawn from a palette of lines with different
+def _write_fasta(path, need, seed, width=100):
+    """a genome covering `need` = {chromosome: length}: 100-base pieces drawn from a palette of pieces with different
     G+C / lowercase / N content, the palette entries in use changing every 4 kb (so that both 200-base target bins
-    and 7-kb antitarget bins differ in gc and rmask)"""
+    and 7-kb antitarget bins differ in gc and rmask), written in lines of `width` bases.  Returns {chromosome:
+    sequence}."""
     r = random.Random(seed)
     palette = []
     for _ in range(10):
@@ -280,6 +417,7 @@ def _write_fasta(path, need, seed):
         ln = "".join(r.choice("GC" if r.random() < pg else "AT") for _ in range(100))
         ln = "".join(ch.lower() if r.random() < pl else ch for ch in ln)
         palette.append(ln if r.random() < .9 else ln[:60] + "N" * 40)
+    seqs = {}
     with open(path, "w") as fh:
         for chrom, length in need.items():
             fh.write(">%s\n" % chrom)
@@ -287,10 +425,43 @@ def _write_fasta(path, need, seed):
             for _ in range(length // 4000 + 1):
                 two = r.sample(palette, 2)
                 lines.extend(r.choice(two) for _ in range(40))
-            fh.write("\n".join(lines) + "\n")
+            seq = "".join(lines)
+            seqs[chrom] = seq
+            if width == 100:
+                fh.write("\n".join(lines) + "\n")
+            else:
+                fh.write("\n".join(seq[j:j + width] for j in range(0, len(seq), width)) + "\n")
+    return seqs
 
 
-def _reference_cli(o, tfiles, afiles, indir, out, hapx, given, fasta=None):
+def _gc_lo(seq):
+    """the property's definition, counted independently of calculate_gc_lo: G+C over the unambiguous bases, and the
+    lowercase unambiguous bases over the same total; (0, 0) without any"""
+    tot = sum(ch in "ACGTacgt" for ch in seq)
+    if not tot:
+        return 0.0, 0.0
+    return sum(ch in "GCgc" for ch in seq) / tot, sum(ch in "acgt" for ch in seq) / tot
+
+
+def _fasta_columns(ref, seqs, want_gc, want_rm_of):
+    """compare a reference's gc / rmask columns with the bins' own sequences.  Returns (number of bins whose value
+    is wrong or missing, index of the first such bin or None)."""
+    bad, first = 0, None
+    d = ref.data
+    for k, r in enumerate(d.itertuples()):
+        g, m = _gc_lo(seqs[str(r.chromosome)][int(r.start):int(r.end)])
+        ok = True
+        if want_gc:
+            ok = ok and "gc" in d.columns and abs(float(r.gc) - g) <= 1e-9
+        if want_rm_of(str(r.gene)):
+            ok = ok and "rmask" in d.columns and abs(float(r.rmask) - m) <= 1e-9
+        if not ok:
+            bad += 1
+            first = k if first is None else first
+    return bad, first
+
+
+def _reference_cli(o, tfiles, afiles, indir, out, hapx, given, fasta=None, par=None, cluster=None):
     """`cnvkit.py reference <target and antitarget .cnn files in one list | their directory> -o out [...]`"""
     if o["form"] == "dir":
         pos = [indir]
@@ -307,7 +478,18 @@ def _reference_cli(o, tfiles, afiles, indir, out, hapx, given, fasta=None):
         opts += [o["x"], o["sex_f"] if given else o["sex_m"]]
     if fasta:
         opts += ["-f", fasta]
+    if par:
+        opts += ["--diploid-parx-genome", par]
+    if cluster:
+        opts += [o.get("c", "-c"), "--min-cluster-size", str(cluster)]
     return _cli_run(["reference"] + (opts + pos if o["opts_first"] else pos + opts), out)
+
+
+def _need(rows, pad=200):
+    need = {}
+    for r in rows:
+        need[r[0]] = max(need.get(r[0], 0), r[2] + pad)
+    return need
 
 
 def run_impl(case):
@@ -320,42 +502,92 @@ def run_impl(case):
         g, m = reference.calculate_gc_lo(i["seq"])
         return [frac(float(g)), frac(float(m))]
     cli = i.get("cli_opts") if i.get("cli") else None
-    if cli:
+    if cli or i.get("cli"):
         d = tempfile.mkdtemp(dir="/var/tmp", prefix="c05cli")
     else:
         os.makedirs("/var/tmp/verif-c05", exist_ok=True)
         d = tempfile.mkdtemp(dir="/var/tmp/verif-c05")
     try:
         if op == "reference_on":
+            abins = i.get("abins") or []
+            fa, seqs = None, None
+            if i.get("fasta_seed") is not None:
+                os.makedirs(os.path.join(d, "genome"))
+                fa = os.path.join(d, "genome", "genome.fa")
+                seqs = _write_fasta(fa, _need(i["bins"] + abins), i["fasta_seed"])
+            # every other sample is of the other sex in a mixed cohort (sexes then left to be inferred); a single
+            # deviating sample would be invisible: with most values equal the MAD is 0 and the estimators ignore it
+            fem_of = [i["female"] != (bool(i.get("mixed")) and s % 2 == 0) for s in range(i["k"])]
+            given = None if i.get("mixed") else i["female"]
+            inferred_ok = True
+
             def build(scales, sub):
+                nonlocal inferred_ok
                 os.makedirs(os.path.join(d, sub))
-                files = []
-                for name, sc in zip(i["names"], scales):
-                    rows = []
-                    for (c, a, b, g), pr in zip(i["bins"], i["profile_f"]):
-                        lg = 6 + sc + pr - (1 if (c.replace("chr", "") == "X" and not i["female"]) else 0)
-                        rows.append([c, a, b, g, lg, 2.0 ** lg])
+                files, afiles = [], []
+                for name, sc, fem in zip(i["names"], scales, fem_of):
+                    def rows_of(bins, prof):
+                        rows = []
+                        for (c, a, b, g), pr in zip(bins, prof):
+                            lg = 6 + sc + pr - (1 if (c.replace("chr", "") == "X" and not fem) else 0)
+                            rows.append([c, a, b, g, lg, 2.0 ** lg])
+                        return rows
                     pth = os.path.join(d, sub, name + ".targetcoverage.cnn")
-                    _write(rows, pth)
+                    _write(rows_of(i["bins"], i["profile_f"]), pth, gc_col=bool(i.get("gc_col")))
                     files.append(pth)
+                    if abins:
+                        pth = os.path.join(d, sub, name + ".antitargetcoverage.cnn")
+                        _write(rows_of(abins, i["profile_af"]), pth, gc_col=bool(i.get("gc_col")))
+                        afiles.append(pth)
+                if given is None:
+                    got = reference.infer_sexes(files, False, None)
+                    inferred_ok = inferred_ok and all(bool(got.get(n)) == f for n, f in zip(i["names"], fem_of))
                 if cli:
                     # no --no-* flag: the parser's defaults (all corrections on) are what reaches do_reference
-                    ref = _reference_cli(cli, files, [], os.path.join(d, sub), os.path.join(d, "out_" + sub, "ref.cnn"),
-                                         i["hapX"], i["female"])
+                    ref = _reference_cli(cli, files, afiles, os.path.join(d, sub), os.path.join(d, "out_" + sub, "ref.cnn"),
+                                         i["hapX"], given, fa)
                 else:
-                    ref = reference.do_reference(files, None, None, i["hapX"], None, i["female"])
-                return ref.data
-            r1 = build(i["scales_f"], "scaled")
-            r0 = build([0.0] * i["k"], "same")
-            return {"n": int(len(r1)), "n_bins": len(i["bins"]), "max_spread": float(np.nanmax(np.abs(r1["spread"].values))),
-                    "max_diff": float(np.nanmax(np.abs(r1["log2"].values - r0["log2"].values))) if len(r1) == len(r0) else float("inf")}
-        if op == "flat_reference":
+                    ref = reference.do_reference(files, afiles or None, fa, i["hapX"], None, given)
+                return ref
+            ref1 = build(i["scales_f"], "scaled")
+            r1 = ref1.data
+            r0 = build([0.0] * i["k"], "same").data
+            out = {"n": int(len(r1)), "n_bins": len(i["bins"]) + len(abins),
+                   "max_spread": float(np.nanmax(np.abs(r1["spread"].values))),
+                   "max_diff": float(np.nanmax(np.abs(r1["log2"].values - r0["log2"].values))) if len(r1) == len(r0) else float("inf"),
+                   "inferred_ok": bool(inferred_ok)}
+            if seqs is not None:
+                # gc of every bin, rmask of the antitarget bins (do_rmask is for the antitargets only)
+                out["fasta_bad"] = _fasta_columns(ref1, seqs, True, lambda g: g == "Antitarget")[0]
+            return out
+        if op in ("flat_reference", "flat_fasta"):
             tp = os.path.join(d, "t.bed")
             tabio.write(GA.from_rows([tuple(r) for r in i["tb"]], columns=["chromosome", "start", "end", "gene"]), tp, "bed4")
             ap = None
             if i["ab"]:
                 ap = os.path.join(d, "a.bed")
                 tabio.write(GA.from_rows([tuple(r) for r in i["ab"]], columns=["chromosome", "start", "end", "gene"]), ap, "bed4")
+            if op == "flat_fasta":
+                os.makedirs(os.path.join(d, "genome"))
+                fa = os.path.join(d, "genome", "genome.fa")
+                seqs = _write_fasta(fa, _need(i["tb"] + i["ab"], 0), i["fasta_seed"], i["width"])
+                if i.get("cli"):
+                    out = os.path.join(d, "out", "flat.cnn")
+                    argv = ["reference", "-t", tp] + (["-a", ap] if ap else []) + ([i["y"]] if i["hapX"] else [])
+                    ref = _cli_run(argv + [i["f"], fa, "-o", out], out)
+                else:
+                    ref = reference.do_reference_flat(tp, ap, fa, i["hapX"])
+                plain = reference.do_reference_flat(tp, ap, None, i["hapX"])
+                bad, first = _fasta_columns(ref, seqs, True, lambda g: True)
+                # one bin goes to the model: the first one that looks wrong, else a drawn one
+                j = first if first is not None else min(len(ref) - 1, int(i["pick"] * len(ref)))
+                r = ref.data.iloc[j]
+                same = (len(ref) == len(plain) == len(i["tb"]) + len(i["ab"]) and
+                        all(a == b for c in ("chromosome", "start", "end", "gene", "log2")
+                            for a, b in zip(ref.data[c].values, plain.data[c].values)))
+                val = lambda c: frac(float(r[c])) if c in ref.data.columns and float(r[c]) == float(r[c]) else "nan"
+                return {"gc": val("gc"), "rm": val("rmask"),
+                        "seq": seqs[str(r["chromosome"])][int(r["start"]):int(r["end"])], "bad": bad, "same": bool(same)}
             if cli:
                 # (the command has no way to pass par to the flat reference; the generated par is None)
                 out = os.path.join(d, "out", "flat.cnn")
@@ -366,19 +598,24 @@ def run_impl(case):
             else:
                 ref = reference.do_reference_flat(tp, ap, None, i["hapX"], i["par"])
             return [[str(r.chromosome), int(r.start), int(r.end), frac(float(r.log2))] for r in ref.data.itertuples()]
+        api = i.get("api") or {}
+        wopt = {"nodepth": bool(i.get("nodepth")), "gc_col": bool(i.get("gc_col"))}
         tf, af, reread_t, reread_a = [], [], {}, {}
-        for s in i["samples"]:
+        for n, s in enumerate(i["samples"]):
+            sh = None if api.get("shuffle_rows") is None else api["shuffle_rows"] + n
             p1 = os.path.join(d, s["name"] + ".targetcoverage.cnn")
-            _write(s["t"], p1)
+            _write(s["t"], p1, shuffle=sh, **wopt)
             tf.append(p1)
             reread_t[s["name"]] = _reread(p1)
-            if i["with_anti"]:
+            if i["with_anti"] and s["name"] != i.get("drop_anti"):
                 p2 = os.path.join(d, s["name"] + ".antitargetcoverage.cnn")
-                _write([] if i["empty_anti"] else s["a"], p2)
+                _write([] if i["empty_anti"] else s["a"], p2, shuffle=sh, **wopt)
                 af.append(p2)
                 reread_a[s["name"]] = [] if i["empty_anti"] else _reread(p2)
+            else:
+                af.append(None)
         tfo = [tf[j] for j in i["order"]]
-        afo = [af[j] for j in i["order"]] if i["with_anti"] else None
+        afo = [af[j] for j in (i["order"] if cli else i.get("order_a") or i["order"]) if af[j]] if i["with_anti"] else None
         given = None if i["given"] is None else (i["given"] == "true")
         # sexes as do_reference determines them (parameter of the model)
         if given is None:
@@ -392,6 +629,9 @@ def run_impl(case):
                         sexes[sid] = a_is_xx
         else:
             sexes = {s["name"]: given for s in i["samples"]}
+        import contextlib
+        import io
+        quiet = contextlib.redirect_stdout(io.StringIO()) if i.get("cluster") else contextlib.nullcontext()   # (k-means prints)
         if cli:
             fa = None
             if cli["fasta"]:
@@ -399,19 +639,54 @@ def run_impl(case):
                 # (always given in these cases) are then what keeps the result equal to the corrections-off model
                 need = {}
                 for s in i["samples"][:1]:
-                    for r in s["t"] + s["a"]:
-                        need[r[0]] = max(need.get(r[0], 0), r[2] + 200)
+                    need = _need(s["t"] + s["a"])
                 os.makedirs(os.path.join(d, "genome"))
                 fa = os.path.join(d, "genome", "genome.fa")
                 _write_fasta(fa, need, cli["fasta_seed"])
-            ref = _reference_cli(cli, tfo, afo or [], d, os.path.join(d, "out", "reference.cnn"), i["hapX"], given, fa)
+            with quiet:
+                ref = _reference_cli(cli, tfo, afo or [], d, os.path.join(d, "out", "reference.cnn"), i["hapX"], given, fa,
+                                     i["par"], i.get("cluster"))
         else:
-            ref = reference.do_reference(tfo, afo, None, i["hapX"], i["par"], given, do_gc=False, do_edge=False, do_rmask=False)
+            if api.get("tuple"):
+                tfo, afo = tuple(tfo), (tuple(afo) if afo is not None else None)
+            if afo is None and api.get("empty_list"):
+                afo = []
+            kw = {"do_gc": False, "do_edge": False, "do_rmask": False}
+            if i.get("cluster"):
+                kw.update(do_cluster=True, min_cluster_size=i["cluster"])
+            if api.get("implicit"):
+                # arguments at their defaults are left out
+                if i["par"] is not None:
+                    kw["diploid_parx_genome"] = i["par"]
+                if given is not None:
+                    kw["female_samples"] = given
+                if i["hapX"]:
+                    kw["is_haploid_x_reference"] = True
+                with quiet:
+                    ref = reference.do_reference(tfo, afo, **kw) if afo is not None else reference.do_reference(tfo, **kw)
+            else:
+                with quiet:
+                    ref = reference.do_reference(tfo, afo, None, i["hapX"], i["par"], given, **kw)
         rows = [[str(r.chromosome), int(r.start), int(r.end), str(r.gene), frac(float(r.log2)), frac(float(r.depth)),
                  frac(float(r.spread))] for r in ref.data.itertuples()]
-        return {"rows": rows, "sexes": [[k, bool(v)] for k, v in sexes.items()], "t": reread_t, "a": reread_a}
+        out = {"rows": rows, "sexes": [[k, bool(v)] for k, v in sexes.items()], "t": reread_t, "a": reread_a}
+        if i.get("cluster"):
+            # the per-cluster columns: present, one value per bin; for samples that differ only in depth and sex every
+            # cluster reproduces the common profile with spread 0 as well
+            cl = [c for c in ref.data.columns if c.startswith("log2_") or c.startswith("spread_")]
+            dev = 0.0
+            for c in cl:
+                base = ref.data["log2"].values if c.startswith("log2_") else 0.0
+                dev = max(dev, float(np.max(np.abs(ref.data[c].values - base))) if not ref.data[c].isna().any() else float("inf"))
+            out["cluster"] = {"cols": cl, "dev": dev}
+        return out
     finally:
         shutil.rmtree(d, ignore_errors=True)
+
+
+def _par(i):
+    """the genome build as parx_filter takes it (lower-cased)"""
+    return i["par"].lower() if i.get("par") else None
 
 
 def to_line(case, impl):
@@ -422,15 +697,23 @@ def to_line(case, impl):
         return {"op": op, "in": {"seq": i["seq"]}}
     if op == "reference_on":
         return {"op": "gc_rmask", "in": {"seq": ""}}  # no model for the corrections-on run: semantic clauses only
+    if op == "flat_fasta":
+        # the model computes gc / rmask of the sequence of ONE bin (run_impl sends the first bin that looks wrong)
+        return {"op": "gc_rmask", "in": {"seq": "" if err else impl["seq"]}}
     if op == "flat_reference":
         bins = [[r[0], r[1], r[2], r[3], "0", "1"] for r in i["tb"] + i["ab"]]
         return {"op": op, "in": {"bins": bins, "hapX": i["hapX"], "par": i["par"]}}
     if err:
         # the model is driven with the generated values (the files could not be summarised)
-        tg = [{"name": s["name"], "rows": [[r[0], r[1], r[2], r[3], frac(r[4]), frac(r[5])] for r in s["t"]]} for s in i["samples"]]
-        return {"op": op, "in": {"hapX": i["hapX"], "par": i["par"], "targets": tg, "sexes": [], "ideal": False}}
+        enc = lambda rows: [[r[0], r[1], r[2], r[3], frac(r[4]), frac(r[5])] for r in rows]
+        tg = [{"name": s["name"], "rows": enc(s["t"])} for s in i["samples"]]
+        line = {"op": op, "in": {"hapX": i["hapX"], "par": _par(i), "targets": tg, "sexes": [], "ideal": False}}
+        if i["with_anti"]:
+            line["in"]["antitargets"] = [{"name": s["name"], "rows": [] if i["empty_anti"] else enc(s["a"])}
+                                         for s in i["samples"] if s["name"] != i.get("drop_anti")]
+        return line
     tg = [{"name": n, "rows": rows} for n, rows in impl["t"].items()]
-    line = {"op": op, "in": {"hapX": i["hapX"], "par": i["par"], "targets": tg, "sexes": impl["sexes"],
+    line = {"op": op, "in": {"hapX": i["hapX"], "par": _par(i), "targets": tg, "sexes": impl["sexes"],
                              "ideal": bool(i["ideal"]), "profile_t": i.get("profile_t", []),
                              "profile_a": [] if i["empty_anti"] else i.get("profile_a", [])}, "impl": impl["rows"]}
     if i["with_anti"]:
@@ -459,6 +742,17 @@ def judge(case, impl, resp):
         spec = list(resp.get("spec") or [])
         rows = impl["rows"]
         dis = []
+        cl = impl.get("cluster")
+        if cl is not None:
+            i = case["in"]
+            # up to 5 samples make one k-means cluster (k = round(log3 n) = 1): its columns must be there unless
+            # the cluster is below the minimum size
+            if i["k"] <= 5 and i["cluster"] <= i["k"] and not cl["cols"]:
+                spec.append("cluster_columns_present")
+            if len(cl["cols"]) % 2:
+                spec.append("cluster_columns_paired")
+            if i["ideal"] and i["k"] >= 2 and not cl["dev"] <= 1e-6:
+                spec.append("depth_only_normals_reproduced_in_every_cluster")
         knife = None
         if len(out) != len(rows):
             dis.append(f"row count model {len(out)} impl {len(rows)}")
@@ -492,6 +786,10 @@ def judge(case, impl, resp):
     dis = []
     if op == "reference_on":
         spec = []
+        if not impl.get("inferred_ok", True):
+            return [], [], None     # the real guess_xx did not see the intended sexes (C15): nothing follows
+        if impl.get("fasta_bad"):
+            spec.append("gc_rmask_columns_follow_bin_sequences_corrections_on")
         if impl["n"] != impl["n_bins"]:
             spec.append("exact_bins_corrections_on")
         if not impl["max_spread"] <= 1e-6:
@@ -503,6 +801,15 @@ def judge(case, impl, resp):
         if not (_close(impl[0], out[0]) and _close(impl[1], out[1])):
             dis.append(f"gc/rmask model {out} impl {impl}")
         return [], dis, None
+    if op == "flat_fasta":
+        spec = []
+        if impl["bad"]:
+            spec.append("gc_rmask_columns_follow_bin_sequences")
+        if not impl["same"]:
+            spec.append("flat_reference_unchanged_by_fasta")
+        if impl["gc"] == "nan" or impl["rm"] == "nan" or not (_close(impl["gc"], out[0]) and _close(impl["rm"], out[1])):
+            dis.append(f"gc/rmask of one bin: model {out} impl {impl['gc']}, {impl['rm']}")
+        return spec, dis, None
     if op == "flat_reference":
         got = [[r[0], r[1], r[2], str(Fraction(r[3]))] for r in impl]
         want = [[r[0], r[1], r[2], str(Fraction(r[3]))] for r in out]
@@ -514,4 +821,6 @@ def judge(case, impl, resp):
 
 def nontrivial(case, impl, resp):
     i = case["in"]
+    if case["op"] == "reference_on" and isinstance(impl, dict) and not impl.get("inferred_ok", True):
+        return False
     return case["op"] not in ("reference",) or i["k"] >= 2
